@@ -267,6 +267,19 @@ def redundant_parens(text, rng):
     return "".join(res)
 
 
+def eof_whitespace(text, rng):
+    """An unterminated whitespace-only last line (any width), or no final newline at all."""
+    if not text.endswith("\n") or "\r" in text:
+        return None
+    k = rng.randrange(6)
+    if k == 0:
+        t = text[:-1]
+        # dropping the final newline of a text that ends in a comment / continuation is still layout-only; the
+        # reference-equality filter decides
+        return t if t else None
+    return text + rng.choice([" ", "  ", "   ", "    ", "        ", "\t", " \t" if False else "      ", "\x0c"])
+
+
 def newline_style(text, rng, style=None):
     style = style or rng.choice(["crlf", "cr", "mixed"])
     if style == "crlf":
@@ -287,11 +300,12 @@ REWRITES = {
     "token_spacing": spaces_between_tokens,
     "redundant_parens": redundant_parens,
     "bom": bom,
+    "eof_whitespace": eof_whitespace,
     "newline_style": newline_style,
 }
 # rewrites that need an LF-only, form-feed-free input come first in a composition
 ORDER = ["redundant_parens", "reindent", "backslash_joins", "bracket_newlines", "token_spacing", "trailing_blanks", "blank_comment_lines",
-         "eol_comments", "form_feeds", "bom", "newline_style"]
+         "eol_comments", "form_feeds", "eof_whitespace", "bom", "newline_style"]
 
 
 def compose(text, rng, k=None, names=None):
